@@ -11,7 +11,7 @@ for d in seeded/$glob/; do
   [ -n "$ids" ] || { echo "SKIP $name: no detecting check recorded"; continue; }
   wt=/tmp/sweep-$name
   git -C /repo worktree add -q --detach "$wt" HEAD || exit 2
-  if ! git -C "$wt" apply "/verif/$d/patch.diff"; then echo "PATCH-DOES-NOT-APPLY $name"; bad=$((bad+1)); git -C /repo worktree remove --force "$wt"; continue; fi
+  if ! git -C "$wt" apply "/verif/$d/patch.diff" 2>/dev/null && ! git -C "$wt" apply --3way "/verif/$d/patch.diff" 2>/dev/null; then echo "PATCH-DOES-NOT-APPLY $name"; bad=$((bad+1)); git -C /repo worktree remove --force "$wt"; continue; fi
   for id in $ids; do
     n=$((n+1))
     out=$(VERIF_REPO="$wt" ./check "$id" 2>&1); rc=$?
